@@ -6,6 +6,8 @@ import (
 	"google.golang.org/grpc/codes"
 	"google.golang.org/grpc/status"
 	"google.golang.org/protobuf/proto"
+
+	"github.com/smart-core-os/sc-golang/internal/verifhook"
 )
 
 // CreateFn is called to generate a message based on the ID the message is going to have.
@@ -37,6 +39,7 @@ func GetAndUpdate(mu *sync.RWMutex, get GetFn, change ChangeFn, save SaveFn) (ol
 	if err != nil {
 		return nil, nil, err
 	}
+	verifhook.Yield("gau.read")
 
 	newValue = proto.Clone(oldValue)
 	if newValue, err = change(oldValue, newValue); err != nil {
